@@ -49,6 +49,14 @@ func (e *emitter) emit(sk, a ring.Poly, out *rlwe.Ciphertext, ntt bool) {
 	}
 }
 
+// ERRREUSE control: one draw masks both components
+func (e *emitter) twice(buf ring.Poly, out *rlwe.Ciphertext) {
+	e.xe.Read(buf)
+	e.r.NTT(buf, buf)
+	e.r.Add(out.Value[0], buf, out.Value[0])
+	e.r.Add(out.Value[1], buf, out.Value[1])
+}
+
 // SECTAB control: 120 bits of modulus at LogN=12 (table row: 109)
 var BadParamsN12QP109 = rlwe.ParametersLiteral{LogN: 12, LogQ: []int{60, 60}}
 
